@@ -242,8 +242,9 @@ def _axis_labels(draw, lo, hi):
 
 
 @st.composite
-def _axis(draw, name, tag, v5, force_default_in_map):
-    discrete = v5 and draw(st.integers(0, 3)) == 0
+def _axis(draw, name, tag, v5, force_default_in_map, want=None):
+    want = want or (lambda feature, strategy: v5 and draw(strategy))
+    discrete = want("discrete", st.integers(0, 3).map(lambda i: i == 0))
     ax = {
         "name": name,
         "tag": tag,
@@ -272,8 +273,9 @@ def _axis(draw, name, tag, v5, force_default_in_map):
             ins = sorted(ins)
             outs = sorted(draw(st.lists(ds_num(), min_size=len(ins), max_size=len(ins))))
             ax["map"] = [[a, b] for a, b in zip(ins, outs)]
-    if v5:
-        ax["axisOrdering"] = draw(opt(st.integers(0, 9)))
+    if want("ordering", st.booleans()):
+        ax["axisOrdering"] = draw(st.integers(0, 9))
+    if want("axisLabels", st.booleans()):
         ax["axisLabels"] = draw(_axis_labels(0, 1))
     return ax
 
@@ -293,7 +295,7 @@ def _location(draw, axis_names, anisotropic=False, allow_empty=True):
 @st.composite
 def _v4_glyphs(draw, axis_names, glyph_names):
     out = {}
-    for gname in draw(st.lists(st.sampled_from(glyph_names), unique=True, max_size=2)):
+    for gname in draw(st.lists(st.sampled_from(glyph_names), unique=True, min_size=1, max_size=2)):
         data = {}
         if draw(st.booleans()):
             data["mute"] = True
@@ -324,14 +326,28 @@ def designspace_doc(draw):
         fmt = draw(st.sampled_from(["4.0", "4.1", "4.1", "4.1", None]))
     # a document whose declared format is < 5 and that uses no v5 feature is written
     # in the pre-5 style (locations filled with defaults, instance glyphs kept)
+    # v5 documents either mix the format-5 features freely or use exactly one of them (so that each
+    # feature on its own has to trigger the format upgrade of a document declared as 4.x)
+    V5_FEATURES = ["discrete", "ordering", "axisLabels", "locationLabels", "localisedFamilyName", "variableFonts", "instanceUserLocation", "instanceLocationLabel", "axisMappings"]
+    single = draw(st.sampled_from(V5_FEATURES)) if v5 and draw(st.integers(0, 2)) == 0 else None
+    if single is not None:
+        fmt = draw(st.sampled_from(["4.0", "4.1", "4.1", None]))
+
+    def want(feature, strategy):
+        if not v5:
+            return False
+        if single is not None:
+            return feature == single or (single == "instanceLocationLabel" and feature == "locationLabels")
+        return draw(strategy)
+
     n_axes = draw(st.integers(1, 3))
     axis_names = draw(st.lists(name_text(8), min_size=n_axes, max_size=n_axes, unique=True))
     tags = draw(st.lists(st.sampled_from(["wght", "wdth", "opsz", "slnt", "ital", "XXXX", "CNTR", "A b ", "1234"]), min_size=n_axes, max_size=n_axes, unique=True))
-    axes = [draw(_axis(n, t, v5, force_default_in_map=True)) for n, t in zip(axis_names, tags)]
+    axes = [draw(_axis(n, t, v5, force_default_in_map=True, want=want)) for n, t in zip(axis_names, tags)]
     glyph_names = ["a", "A", "dollar", "a.alt", "uni0041", "é", "f_f_i"]
     doc = {
         "formatVersion": fmt,
-        "elidedFallbackName": draw(opt(name_text())) if v5 else None,
+        "elidedFallbackName": draw(opt(name_text())) if v5 and single is None else None,
         "axes": axes,
         "axisMappings": [],
         "locationLabels": [],
@@ -343,7 +359,7 @@ def designspace_doc(draw):
         "lib": draw(st.one_of(st.just({}), plist_dict())),
     }
     # axis mappings (5.1)
-    if v5 and draw(st.integers(0, 3)) == 0:
+    if want("axisMappings", st.integers(0, 3).map(lambda i: i == 0)):
         groups = draw(st.lists(opt(name_text()), min_size=1, max_size=3))
         for gd in groups:
             for _ in range(draw(st.integers(1, 2))):
@@ -356,7 +372,7 @@ def designspace_doc(draw):
                     }
                 )
     # location labels
-    if v5 and draw(st.booleans()):
+    if want("locationLabels", st.booleans()):
         lnames = draw(st.lists(name_text(), min_size=1, max_size=3, unique=True))
         for ln in lnames:
             doc["locationLabels"].append(
@@ -387,7 +403,7 @@ def designspace_doc(draw):
             doc["rules"].append({"name": draw(opt(name_text(), 0.2)), "conditionSets": csets, "subs": subs})
         doc["rulesProcessingLast"] = draw(st.booleans())
     # sources
-    for i in range(draw(st.integers(0, 3))):
+    for i in range(draw(st.integers(1 if single == "localisedFamilyName" else 0, 3))):
         s = {
             "filename": draw(opt(rel_filename(), 0.2)),
             "path_rel": None,
@@ -396,7 +412,7 @@ def designspace_doc(draw):
             "layerName": draw(opt(name_text())),
             "familyName": draw(opt(name_text())),
             "styleName": draw(opt(name_text())),
-            "localisedFamilyName": draw(label_names()) if v5 and draw(st.booleans()) else {},
+            "localisedFamilyName": draw(label_names(allow_en=False).filter(bool) if single else label_names()) if want("localisedFamilyName", st.booleans()) else {},
             "mutedGlyphNames": draw(st.lists(st.sampled_from(glyph_names), max_size=2)),
         }
         for flag in ("copyLib", "copyInfo", "copyGroups", "copyFeatures", "muteKerning", "muteInfo"):
@@ -405,7 +421,7 @@ def designspace_doc(draw):
             s["path_rel"] = draw(st.tuples(st.sampled_from(["", "masters/", "deep/er/"]), simple_filename()).map("".join))
         doc["sources"].append(s)
     # variable fonts
-    if v5 and draw(st.integers(0, 2)) == 0:
+    if want("variableFonts", st.integers(0, 2).map(lambda i: i == 0)):
         for vn in draw(st.lists(name_text(), min_size=1, max_size=2, unique=True)):
             subsets = []
             for ax in draw(st.lists(st.sampled_from(axes), min_size=1, max_size=len(axes), unique_by=lambda a: a["name"])):
@@ -428,7 +444,7 @@ def designspace_doc(draw):
             )
     # instances
     label_name_pool = [l["name"] for l in doc["locationLabels"]]
-    for i in range(draw(st.integers(0, 3))):
+    for i in range(draw(st.integers(1 if (single in ("instanceUserLocation", "instanceLocationLabel") or not v5) else 0, 3))):
         inst = {
             "filename": draw(opt(rel_filename())),
             "name": draw(opt(name_text())),
@@ -447,19 +463,19 @@ def designspace_doc(draw):
         }
         for k in ("localisedFamilyName", "localisedStyleName", "localisedStyleMapFamilyName", "localisedStyleMapStyleName"):
             inst[k] = draw(label_names()) if draw(st.integers(0, 2)) == 0 else {}
-        if v5 and label_name_pool and draw(st.integers(0, 2)) == 0:
+        if label_name_pool and want("instanceLocationLabel", st.integers(0, 2).map(lambda i: i == 0)):
             inst["locationLabel"] = draw(st.sampled_from(label_name_pool))
         else:
-            names = draw(st.lists(st.sampled_from(axis_names), unique=True, max_size=len(axis_names)))
+            names = draw(st.lists(st.sampled_from(axis_names), unique=True, min_size=1 if single == "instanceUserLocation" else 0, max_size=len(axis_names)))
             for n in names:
-                if v5 and draw(st.integers(0, 2)) == 0:
+                if want("instanceUserLocation", st.integers(0, 2).map(lambda i: i == 0)):
                     inst["userLocation"][n] = draw(ds_num())
                 else:
                     inst["designLocation"][n] = draw(_loc_value(True))
         if not v5 and draw(st.booleans()):
             inst["glyphs"] = draw(_v4_glyphs(axis_names, glyph_names))
         doc["instances"].append(inst)
-    return {"doc": doc, "via": draw(st.sampled_from(["string", "string", "string", "str-unicode", "file"]))}
+    return {"doc": doc, "via": draw(st.sampled_from(["string", "string", "string", "str-unicode", "file", "file"]))}
 
 
 # ---------------------------------------------------------------------------
@@ -835,6 +851,22 @@ def ufo_case(draw):
     groups, kerning = draw(groups_and_kerning())
     layers = []
     names = draw(st.lists(layer_name().filter(lambda s: s != "public.default"), min_size=0, max_size=3, unique=True))
+    if names and draw(st.booleans()):
+        base = draw(st.sampled_from(names))
+        alias = "".join(c.lower() + "_" if c != c.lower() else c for c in base)
+        if alias == base:
+            alias = "".join({"/": ":", ":": "*", ".": "."}.get(c, c) for c in base)
+        if alias == base:
+            alias = base[:1].upper() + base[1:]
+        if alias not in names and alias != "public.default" and (alias.isascii() or len(alias) <= 40):
+            names.append(alias)
+    # derived names that want the same directory as an earlier layer (case / illegal-character aliases)
+    for _ in range(draw(st.integers(0, 2))):
+        if names:
+            cand = draw(_one_name(names))
+            storable = cand and (cand.isascii() or len(cand) <= 40) and all((ord(c) >= 32 or c in "\t\n") and not 0xD800 <= ord(c) <= 0xDFFF and c not in "\ufffe\uffff" for c in cand)
+            if storable and cand not in names and cand != "public.default":
+                names.append(cand)
     default_name = draw(st.sampled_from(["public.default", "public.default", "foreground-default", "Main"]))
     names = [n for n in names if n != default_name]
     for ln in [default_name] + names:
